@@ -692,6 +692,7 @@ func checkPerPeerGoroutines(p *core.Program, r *core.Report) {
 	checkConstraintsPersisted(p, r)
 	checkFragmentIdentity(p, r)
 	checkServedAfterSent(p, r)
+	checkFileBeforeIndex(p, r)
 	checkAcknowledgedNotDroppedOnStop(p, r)
 	// a reservation that is never released (released under another key) shuts the bundle out of every later retry
 	checkDispatchExclusive(p, r)
